@@ -1,8 +1,10 @@
 """C02 — backend-specific re-implementations proved against the SAME spec as the NumPy backend.
 
 TorchBackend._solve_euler: the same postcondition as BaseBackend._solve_euler (euler_iter), so the two agree by
-transitivity for every step count, cadence and state.  (The JAX loops are closures inside lax.scan: outside the
-verified subset, bounded natively in checks/c02.py.)"""
+transitivity for every step count, cadence and state.
+JaxBackend._solve_euler / _solve_heun: nested jax.lax.scan over local closures.  lax.scan is an assumed contract (documented
+semantics, pyvc/abstractions.lax_scan) that is verified like a loop: `scans[<closure>]` gives the inductive invariant over
+(counter, carry) and the clause over the emitted rows; the closure bodies are executed symbolically from the real source."""
 from pyvc import abstractions as A
 from contracts import c03 as S
 
@@ -25,4 +27,39 @@ def torch_euler():
     return c
 
 
-CONTRACTS = [torch_euler()]
+JF = "pyrates/backend/jax/jax_backend.py"
+CLASSES["JaxBackend"] = dict(fields={})
+JABS = dict(S.ABS)
+JABS.update({"jnp.asarray": A.first_arg, "np.asarray": A.first_arg, "*.astype": A.astype_int, "jax.lax.scan": A.lax_scan})
+
+
+def jax_solver(method, it):
+    c = dict(S.solver("ode", method, it, False))
+    c["name"] = f"JaxBackend.{method}[ode]"
+    c["prop"] = "C02"
+    c["target"] = f"{JF}::JaxBackend.{method}"
+    c["params"] = dict({"self": "obj:JaxBackend"}, **c["params"])
+    c["abstractions"] = JABS
+    c["loops"] = {}
+    pos = "J * store_step + j"
+    if it == "euler_iter":
+        inst = f"euler_iter({pos} + 1) == euler_iter({pos}) + dt * func({pos} + t0, euler_iter({pos}))"
+    else:
+        inst = (f"heun_iter({pos} + 1) == heun_iter({pos}) + dt / 2 * (func({pos} + t0, heun_iter({pos})) + "
+                f"func({pos} + t0, heun_iter({pos}) + dt * func({pos} + t0, heun_iter({pos}))))")
+    c["scans"] = {
+        # outer scan: one iteration per stored row; carry = (step counter, state) at the START of block J
+        "outer_step": dict(counter="J", carry="c", out_kind="row",
+                           invariant=["c[0] == t0 + J * store_step", f"c[1] == {it}(J * store_step)"],
+                           out=[f"ys[J] == {it}(J * store_step)"],
+                           lemmas=["(J + 1) * store_step == J * store_step + store_step"]),
+        # inner scan (inside block J): j single steps
+        "inner_step": dict(counter="j", carry="c",
+                           invariant=["c[0] == t_start + j", f"c[1] == {it}(J * store_step + j)"],
+                           lemmas=["implies(J >= 0 and store_step >= 0, J * store_step >= 0)"],
+                           axiom_instances=[inst]),
+    }
+    return c
+
+
+CONTRACTS = [torch_euler(), jax_solver("_solve_euler", "euler_iter"), jax_solver("_solve_heun", "heun_iter")]
